@@ -46,7 +46,11 @@ class C11(Prop):
             return 'a timeout timer is still armed after all blocks have exited'
         if case.get('ext') is None and obs['out'] == 'ok' and obs['tail'] != 'tail-ok':
             return 'a cancellation was delivered after the blocks had exited (follow-on code was cancelled)'
+        swallows = tc.catches_cancel(case['prog'])
         for exc, expired, t0, dl, t1, kind in obs['log']:
+            if t1 > max(dl, t0) + 1e-9 and not swallows and case.get('ext') is None:
+                return (f'a block was still running after its deadline (entered {t0}, deadline {dl}, left {t1}): '
+                        'it was not interrupted at its deadline')
             if expired:
                 if abs(t1 - max(dl, t0)) > 1e-9:
                     return 'a block reported expiry at an instant other than its deadline'
